@@ -58,6 +58,7 @@ type desc struct {
 	Me      int      `json:"me,omitempty"`
 	Obs     string   `json:"observed,omitempty"`
 	Tags    []string `json:"tags,omitempty"`
+	World   string   `json:"world,omitempty"` // "one" = one-to-one world (onetoone.go); Hist is then the world index
 }
 
 type runner struct {
@@ -66,6 +67,7 @@ type runner struct {
 	samples       []interface{}
 	builderPanics []interface{}
 	batchTrials   int
+	oneSamples    []interface{}
 }
 
 type hrec struct {
@@ -97,6 +99,7 @@ type hist struct {
 	termCache   map[*RawRec]cachedTerm
 	everMember  map[int]bool
 	dbDir       string
+	world       string // "" = ordinary history, "one" = one-to-one world
 }
 
 // ---------------------------------------------------------------- replicas
@@ -180,7 +183,7 @@ func ints(v []int) string {
 }
 
 func (h *hist) desc(kind, replica string, step int) desc {
-	return desc{Seed: h.seed, Hist: h.idx, Kind: kind, Replica: replica, Step: step}
+	return desc{Seed: h.seed, Hist: h.idx, Kind: kind, Replica: replica, Step: step, World: h.world}
 }
 
 // deliver performs one AddRawRecord under recover.
@@ -347,7 +350,13 @@ func main() {
 		"records] and the same sequence through AddRawRecord, where the rejected record is a hand-signed correctly chained record of 1-4 contents failing at " +
 		"content k (every k), a record failing late in apply, a raw mutation or a builder-refused record; compared with the one-at-a-time replica at the same " +
 		"head, with a rebuild from the replica's own storage and with the model's add_raws (CBatch); a CAdd case is non-trivial if the record is accepted with >= 1 content or is a mutation of an acceptable record; " +
-		"CSame/CFold if the history has >= 5 accepted records; distinct by full case term"
+		"CSame/CFold if the history has >= 5 accepted records; " +
+		"one-to-one worlds (root with OneToOneInfo made by spacepayloads / BuildOneToOneRoot; replicas of both parties, a third account, a node and a list " +
+		"run with the shared owner key; validating / non-validating; in-memory / any-store): every first build (COneBuild), per replica 5-8 hand-signed " +
+		"consensus-signed records chained onto its head, of every content kind, single and multi-content, by the shared owner key / a writer / the third " +
+		"account / a stranger, builder-made records and 15 kinds of raw mutations through AddRawRecord (COne) and AddRawRecords (COneBatch), restarts from " +
+		"the replica's own storage (COneBuild), catch-up through RecordsAfter and cross-replica equality (CSame route 9); a COne case is non-trivial if the " +
+		"record is well-formed, correctly signed and chained onto the head, or is a raw mutation; distinct by full case term"
 	if o.Replay != "" {
 		seen := map[[2]uint64]bool{}
 		for _, raw := range vlib.ReadReplay(o.Replay) {
@@ -356,13 +365,20 @@ func main() {
 				continue
 			}
 			k := [2]uint64{d.Seed, uint64(d.Hist)}
+			if d.World == "one" {
+				k[1] += 1 << 40
+			}
 			if seen[k] {
 				continue
 			}
 			seen[k] = true
-			rn.history(d.Seed, d.Hist)
+			if d.World == "one" {
+				rn.oneWorld(d.Seed, d.Hist)
+			} else {
+				rn.history(d.Seed, d.Hist)
+			}
 		}
-		w.Finish("replay: "+rule, rn.samples, nil)
+		w.Finish("replay: "+rule, append(rn.samples, rn.oneSamples...), nil)
 		return
 	}
 	n := 100
@@ -373,5 +389,13 @@ func main() {
 	for i := 0; i < n; i++ {
 		rn.history(o.Seed, i)
 	}
-	w.Finish(rule, rn.samples, map[string]interface{}{"builder_panics_nonmember": rn.builderPanics})
+	nOne := 24
+	if o.Tier == "thorough" {
+		nOne = 150
+	}
+	nOne *= o.Budget
+	for i := 0; i < nOne; i++ {
+		rn.oneWorld(o.Seed, i)
+	}
+	w.Finish(rule, append(rn.samples, rn.oneSamples...), map[string]interface{}{"builder_panics_nonmember": rn.builderPanics})
 }
